@@ -226,11 +226,15 @@ func main() {
 	sort.Slice(targets, func(i, j int) bool { return targets[i].String() < targets[j].String() })
 
 	sg := &gen.S{G: g}
+	wits := witnesses()
 	for id := 0; id < *n; {
 		var sw builder.SQLWriter
 		var c Case
 		dep := 1 + g.Rng.Intn(*depth)
-		if *mode == "structured" || (*mode == "mixed" && id%2 == 1) {
+		if id < len(wits) {
+			sw = wits[id].W
+			c = Case{ID: id, Gen: "witness", Type: "witness:" + wits[id].ID, Prog: wits[id].Prog}
+		} else if *mode == "structured" || (*mode == "mixed" && id%2 == 1) {
 			w, prog, kind := func() (w builder.SQLWriter, prog, kind string) {
 				defer func() {
 					if r := recover(); r != nil {
